@@ -21,4 +21,11 @@ theorem envB_lt (b : List UInt8) : ∀ x ∈ b.map (·.toNat), x < 256 := by
   rcases List.mem_map.mp hx with ⟨u, _, rfl⟩
   exact UInt8.toNat_lt u
 
+/-- `envB b` reads byte `i` of `b` (0 past the end).  The right-hand side is `Ts.byteD b i` unfolded
+(this file does not import `Ts.Basic`; `Ts/Props/Ties/ExprSpec.lean` restates it with `byteD`). -/
+theorem envB_apply (b : List UInt8) (i : Nat) : envB b i = (b.getD i 0).toNat := by
+  unfold envB envL
+  simp only [List.getD_eq_getElem?_getD, List.getElem?_map]
+  cases b[i]? <;> rfl
+
 end Ts.Refl
